@@ -179,6 +179,9 @@ fn lock_names(fx: &[&Fixture]) -> HashMap<usize, String> {
             }
         }
     }
+    for (n, a) in verif::registry_lock_addrs() {
+        m.insert(a, n.to_string());
+    }
     m
 }
 
@@ -230,7 +233,7 @@ fn run_once(
         chooser(v)
     };
     let rr = sched::run(bodies, &mut wrapped, Duration::from_millis(job.hang_ms));
-    for (t, w) in &rr.grants {
+    for (gi, (t, w)) in rr.grants.iter().enumerate() {
         if matches!(w, Want::Yield(_)) {
             grants.push(json!([t + 1, "start", "y"]));
         } else {
@@ -242,7 +245,16 @@ fn run_once(
                 let l = aux.len() + 1;
                 aux.entry(a).or_insert_with(|| format!("aux{}", l)).clone()
             });
-            grants.push(json!([t + 1, n, w.mode()]));
+            // registry locks the thread already held (the registry protocol is flat: always none)
+            let held_reg: Vec<String> = rr.grants_held[gi]
+                .iter()
+                .filter_map(|(a, _)| names.get(a).filter(|n| n.starts_with("reg.")).cloned())
+                .collect();
+            if n.starts_with("reg.") {
+                grants.push(json!([t + 1, n, w.mode(), held_reg]));
+            } else {
+                grants.push(json!([t + 1, n, w.mode()]));
+            }
         }
     }
     let res = results.lock().unwrap().clone();
@@ -418,6 +430,7 @@ pub fn cmd_conc(args: &[String]) -> i32 {
                                     "sel": if o.sel.is_null() { json!([]) } else { o.sel.clone() }})).collect::<Vec<_>>()).collect::<Vec<_>>()),
                             );
                             m.insert("grants".into(), json!(grants));
+                            m.insert("nowarm".into(), json!(job.nowarm));
                             m.insert("choices".into(), json!(rr.choices));
                             m.insert("steps".into(), json!(rr.steps));
                             m.insert("panic".into(), json!(panicked));
@@ -426,6 +439,14 @@ pub fn cmd_conc(args: &[String]) -> i32 {
                         if !job.probe.is_empty() && !panicked {
                             let ps = MScript { ops: job.probe.clone(), ..script.clone() };
                             runner.exec_ops(&ps, 1, &mut cur2, &mut outv);
+                        }
+                        if unix_now() != sec0 && job.strategy.kind == "dfs1" {
+                            // cold-start mode: a repetition inside this process would not be cold any
+                            // more; the driver starts the same schedule again in a fresh process
+                            w.finish();
+                            println!("{}", json!({"verdict": "ok", "retry": true, "schedules": 0, "finished": 0, "logged": 0,
+                                                  "programs": 1, "traces": 0, "events": 0, "next_stack": job.strategy.stack}));
+                            std::process::exit(0);
                         }
                         if unix_now() != sec0 {
                             // virtual time would be inexact: repeat this schedule
